@@ -228,15 +228,83 @@ fn run_rawsweep(bin: &str) {
     emit(&json!({"summary": true, "cases": lens.len() * 2, "executions": execs, "failures": nfail}));
 }
 
+/// `vh bridge --burst`: the client leaves while the bridge is in the middle of forwarding to it.  The service answers with far more
+/// than the pipe to the client holds, the client reads nothing and then closes its reading end (the bridge sits in write(2) at that
+/// moment and is woken with "nobody there"), its writing end a little later.  A side has closed: the bridge stops and reports success
+/// (Bridge.tla: ClientGone while relaying; what was forwarded is a prefix).
+fn run_burst(bin: &str) {
+    let env = start_env("bridge-burst");
+    let mut nfail = 0usize;
+    let mut execs = 0usize;
+    for (ci, (mode, size)) in [("connect", 1usize << 20), ("resolver", 1 << 20), ("connect", 300_000), ("resolver", 5 << 20)].iter().enumerate() {
+        let big = "B".repeat(*size);
+        let req = json!({"method": "org.example.gen.Ping", "parameters": {"ping": big}});
+        let mut cmd = Command::new(bin);
+        if *mode == "resolver" { cmd.arg("-R").arg(&env.addr_r).arg("bridge"); } else { cmd.arg("bridge").arg("--connect").arg(&env.addr_a); }
+        cmd.stdin(Stdio::piped()).stdout(Stdio::piped()).stderr(Stdio::piped());
+        execs += 1;
+        let mut child = match cmd.spawn() { Ok(c) => c, Err(e) => { emit(&json!({"fail": true, "case": ci, "variant": "burst", "sig": "burst spawn", "detail": format!("cannot start the bridge: {}", e)})); nfail += 1; continue; } };
+        let stdin = child.stdin.take().unwrap();
+        let stdout = child.stdout.take().unwrap();
+        let mut b = serde_json::to_vec(&req).unwrap();
+        b.push(0);
+        // the request is larger than the pipe too: written from a thread of its own
+        let wr = std::thread::spawn(move || { let mut stdin = stdin; let _ = stdin.write_all(&b); let _ = stdin.flush(); stdin });
+        // the client does not read: the bridge fills the pipe with the beginning of the reply and blocks
+        let t0 = Instant::now();
+        let mut pending = 0i32;
+        while t0.elapsed() < Duration::from_secs(5) {
+            use std::os::unix::io::AsRawFd;
+            unsafe { libc::ioctl(stdout.as_raw_fd(), libc::FIONREAD, &mut pending); }
+            if pending >= 60000 { break; }
+            std::thread::sleep(Duration::from_millis(5));
+        }
+        std::thread::sleep(Duration::from_millis(60));
+        drop(stdout); // the client stops reading
+        let stdin = wr.join().ok();
+        std::thread::sleep(Duration::from_millis(100));
+        drop(stdin); // ... and closes its writing end
+        let t1 = Instant::now();
+        let mut status = None;
+        while t1.elapsed() < Duration::from_secs(6) {
+            if let Ok(Some(s)) = child.try_wait() { status = Some(s); break; }
+            std::thread::sleep(Duration::from_millis(2));
+        }
+        if status.is_none() { let _ = child.kill(); let _ = child.wait(); }
+        let mut stderr = String::new();
+        if let Some(mut e) = child.stderr.take() { let _ = e.read_to_string(&mut stderr); }
+        let sig = format!("burst {} {}", mode, size);
+        if pending < 60000 {
+            nfail += 1;
+            emit(&json!({"fail": true, "case": ci, "variant": "burst", "sig": sig, "detail": format!("a {}-byte reply was due; after 5 s only {} bytes had been forwarded to the client's pipe", size, pending)}));
+        } else {
+            match status {
+                None => { nfail += 1; emit(&json!({"fail": true, "case": ci, "variant": "burst", "sig": sig, "detail": "the client left in the middle of a large reply; the bridge did not stop within 6 s"})); }
+                Some(s) if !s.success() => { nfail += 1; emit(&json!({"fail": true, "case": ci, "variant": "burst", "sig": sig,
+                    "detail": format!("the client left in the middle of a large reply (stopped reading, then closed): bridge exit status {:?}, expected success (a side hung up) -- stderr {:?}", s, stderr.chars().take(200).collect::<String>())})); }
+                _ => {}
+            }
+        }
+    }
+    emit(&json!({"summary": true, "cases": 4, "executions": execs, "failures": nfail}));
+}
+
 pub fn run(args: &[String]) {
     let bin = std::env::var("VERIF_VARLINK_BIN").expect("VERIF_VARLINK_BIN");
     if args.iter().any(|a| a == "--rawsweep") {
         run_rawsweep(&bin);
         return;
     }
+    if args.iter().any(|a| a == "--burst") {
+        run_burst(&bin);
+        return;
+    }
     let sub: String = args.iter().find_map(|a| a.strip_prefix("--direct=")).unwrap_or("connect").to_string();
     // --abandon: the client writes its requests and closes its side at once, without waiting for the replies (termination clause)
-    let abandon = args.iter().any(|a| a == "--abandon");
+    // --abandon-readend: the client stops reading first (closes its end of the bridge's stdout) while the slow service has not
+    // answered, and closes its writing end only later: the bridge learns about it when it tries to forward the reply
+    let readend = args.iter().any(|a| a == "--abandon-readend");
+    let abandon = readend || args.iter().any(|a| a == "--abandon");
     let cases = read_cases();
     let env = start_env("bridge");
     let exe = std::env::current_exe().unwrap().display().to_string();
@@ -341,6 +409,15 @@ pub fn run(args: &[String]) {
             // long enough for the bridge to be in the middle of the conversation (the slow service has not answered yet)
             std::thread::sleep(Duration::from_millis(30 + (ci as u64 % 4) * 40));
             gone.store(true, std::sync::atomic::Ordering::SeqCst);
+            if readend {
+                // the reading end is closed (the reader thread drops it within 10 ms); the writing end stays open while the service's
+                // replies arrive at the bridge, which finds nobody to forward them to
+                let t0 = Instant::now();
+                while t0.elapsed() < Duration::from_secs(3) {
+                    if let Ok(Some(_)) = child.try_wait() { break; }
+                    std::thread::sleep(Duration::from_millis(5));
+                }
+            }
         } else if pipelined {
             let mut all = Vec::new();
             for (q, _, _) in &conc {
